@@ -22,7 +22,8 @@ RULE = ("forests as in C03 (1-3 destinations, depth <= 2 (thorough <= 3), the sa
         "enough to wrap; given through simple_parsing.field or plain dataclasses metadata), int/str/float/bool/List[int]/None/required "
         "fields; outside defaults differ from the definition's and are FALSY (0, '', 0.0, False, []) in every second draw x "
         "{AUTO, EXPLICIT, NONE} x all 18 (dash variant, generation mode, nested mode) configurations x default source {none, default "
-        "instance, set_defaults, constructor config file}; every case is run in 8 (thorough 32) FRESH interpreters with "
+        "instance, set_defaults, constructor config file}; plus ALWAYS_MERGE with one class at 2-3 destinations (one group whose heading "
+        "lists the destinations in registration order); every case is run in 8 (thorough 32) FRESH interpreters with "
         "PYTHONHASHSEED = 0..n-1: `--help` stdout/stderr/status, format_help(), the registered actions, probes of every hidden "
         "field's spellings, print_help() followed by a parse against a fresh parse. The help text is parsed into entries by the harness "
         "and compared with the model (under the enumeration orders observed in that interpreter) and the raw text is compared "
@@ -49,7 +50,9 @@ HIDDEN = ["hid", "se_cret"]
 DV = {"UNDERSCORE": "DUnderscore", "UNDERSCORE_AND_DASH": "DBoth", "DASH": "DDash"}
 GM = {"FLAT": "GFlat", "NESTED": "GNested", "BOTH": "GBoth"}
 NM = {"DEFAULT": "NDefault", "WITHOUT_ROOT": "NWithoutRoot"}
-CR = {"AUTO": "CRAuto", "EXPLICIT": "CRExplicit", "NONE": "CRNone"}
+CR = {"AUTO": "CRAuto", "EXPLICIT": "CRExplicit", "NONE": "CRNone",
+      # a merged case reaches the model as ONE already merged wrapper (hw_more); the merge itself is C11's subject
+      "ALWAYS_MERGE": "CRAuto"}
 SCRATCH = "/root/scratch/C16/run"
 FULL_SEEDS = 2   # hash seeds under which the hidden-field probes and the print_help()/later-parse probes are run as well
 
@@ -206,6 +209,41 @@ def deep(x):
     return json.loads(json.dumps(x))
 
 
+def merged_case(rng):
+    """ConflictResolution.ALWAYS_MERGE: one class (no members of dataclass type) registered at 2-3 destinations - one group
+    whose heading lists every destination; sometimes a second class with other field names at one more destination"""
+    def flat_tree(names):
+        fields = []
+        for nme in names:
+            f = mkfield(rng, nme, False, equal_len_bias=0.2)
+            if f["default"][0] in ("bool", "list"):
+                f["default"] = ["int", rng.randint(1, 99)]
+            fields.append(f)
+        if rng.random() < 0.3:
+            fields.insert(rng.randint(0, len(fields)), hidden_field(rng, rng.choice(HIDDEN)))
+        taken = set()
+        for f in fields:  # aliases must not clash inside the class
+            f["aliases"] = [a for a in f["aliases"] if _spell(a).replace("_", "-") not in taken
+                            and not taken.add(_spell(a).replace("_", "-"))
+                            and _spell(a).replace("_", "-") not in {_spell(g["name"]).replace("_", "-") for g in fields}]
+        return {"fields": fields, "kids": [], "doc": "auto" if rng.random() < 0.15 else "explicit"}
+
+    names = rng.sample(NAMES, rng.randint(1, 3))
+    shared = flat_tree(names)
+    pool = ["alpha", "beta", "gamma", "d1", "zeta", "eta"]
+    dests = rng.sample(pool, rng.randint(2, 3))
+    items = [[d, deep(shared), ""] for d in dests]
+    rest = [x for x in NAMES if x not in names]
+    if rng.random() < 0.3 and rest:
+        other = flat_tree(rng.sample(rest, 1))
+        for f in other["fields"]:
+            f["aliases"] = []
+        if not any(not drv.exposed(f) for f in other["fields"]):
+            items.insert(rng.randint(0, len(items)), [rng.choice([x for x in pool if x not in dests]), other, ""])
+    c = {"dv": rng.choice(list(DV)), "gm": "FLAT", "nm": "DEFAULT", "mode": "ALWAYS_MERGE", "dests": items}
+    return add_source(rng, name_classes(c), "none")
+
+
 def fixed_trees():
     f = lambda name, aliases=(), help="", default=("int", 1), cmd=True, init=True, via="sp": {  # noqa: E731
         "name": name, "aliases": list(aliases), "cmd": cmd, "init": init, "help": help, "default": list(default), "via": via}
@@ -264,6 +302,8 @@ def gen(tier, seed):
         c = {"dv": rng.choice(list(DV)), "gm": rng.choice(["FLAT", "FLAT", "NESTED", "BOTH"]), "nm": rng.choice(list(NM)),
              "mode": rng.choice(["AUTO"] * 6 + ["EXPLICIT"] * 2 + ["NONE"]), "dests": items}
         cases.append(add_source(rng, name_classes(c), rng.choice(["none", "none", "instance", "set_defaults", "config"])))
+    for _ in range(36 if tier == "quick" else 400):
+        cases.append(merged_case(rng))
     for c in cases:
         c["nseeds"] = nseeds
     return cases
@@ -449,10 +489,13 @@ def _variant_reasons(case, v):
         out.append("--help did not print to stdout only")
     over = _layered(case)
     acc = {d: k for d, k in v["accepted"]}
-    wr = list(drv.walk(case))
-    if [g[0] for g in v["groups"]] != [t["cls"] + " ['" + ".".join(p) + "']" for p, t in wr]:
-        return out + [f"groups {[g[0] for g in v['groups']]} are not one per destination in order"]
-    for (path, tree), (_, entries, _d) in zip(wr, v["groups"]):
+    hw = drv.help_wrappers(case)
+    wr = [(p, t) for p, t, _m in hw]
+    want = [t["cls"] + " [" + ", ".join(f"'{x}'" for x in [".".join(p)] + m) + "]" for p, t, m in hw]
+    if [g[0] for g in v["groups"]] != want:
+        return out + [f"groups {[g[0] for g in v['groups']]} are not one per wrapper, each listing its destinations in "
+                      f"registration order: {want}"]
+    for (path, tree, more), (_, entries, _d) in zip(hw, v["groups"]):
         fs = [f for f in tree["fields"] if drv.exposed(f)]
         if len(fs) != len(entries):
             out.append(f"group of {'.'.join(path)}: {len(entries)} entries for {len(fs)} exposed fields")
@@ -464,7 +507,7 @@ def _variant_reasons(case, v):
                 continue
             if not opts or len(set(opts)) != len(opts) or set(opts) != set(acc.get(d, [])):
                 out.append(f"entry of {d} shows {opts} but the parser accepts {acc.get(d)}")
-            eff = over.get(d, drv.value_text(f["default"]))
+            eff = over.get(d, drv.merged_text(f["default"], 1 + len(more)))
             if eff is not None and default != eff:
                 out.append(f"entry of {d} shows default {default!r}, the effective default is {eff!r}")
             if eff is None and default not in (None, "None"):
@@ -473,7 +516,7 @@ def _variant_reasons(case, v):
                 out.append(f"entry of {d} shows help {text!r}, declared {f['help']!r}")
     if not v["format_help_same"]:
         out.append("format_help() after --help differs from what --help printed")
-    hidden_dests = [".".join(p + [f["name"]]) for p, t in wr for f in t["fields"] if not drv.exposed(f)]
+    hidden_dests = [".".join(p + [f["name"]]) for p, t in drv.walk(case) for f in t["fields"] if not drv.exposed(f)]
     for d in hidden_dests:
         if d in v["action_dests"]:
             out.append(f"hidden field {d} has an action")
@@ -549,7 +592,7 @@ def _autodoc_evidence(case, v, reason):
     """The evidence for the listed finding `the docstring dataclasses generates is used as description`: the description
     that names the hidden field IS the `__doc__` of that group's class, the class was given no docstring, and the text
     has the generated form `Name(...)`.  None = the evidence is there."""
-    wr = list(drv.walk(case))
+    wr = [(p, t) for p, t, _m in drv.help_wrappers(case)]
     hidden = {f["name"] for _p, t in wr for f in t["fields"] if not drv.exposed(f)}
     for (_path, tree), (_title, _entries, desc), doc in zip(wr, v["groups"], v["docs"] + [None] * len(wr)):
         if not any(n in desc for n in hidden):
@@ -573,6 +616,8 @@ def _seed_difference(obs):
         sets_.add(json.dumps([[g[0], [[e[0], sorted(e[1])] for e in g[1]]] for g in v["groups"]]))
     if len(ends) > 1:
         return "option-sets" if ends <= {json.dumps(["cre"]), json.dumps(["exit", 0])} else "other"
+    if len({json.dumps([g[0] for g in v["groups"]]) for v in obs["variants"]}) > 1:
+        return "headings"
     if len(shapes) > 1:
         return "other"
     if len(sets_) > 1:
@@ -592,7 +637,7 @@ def _reasons(case, obs):
     if obs["ntexts"] != 1:
         k = _seed_difference(obs)
         what = {"order": "the order of equal-length option strings", "option-sets": "the option strings the conflict resolver assigns (or whether it gives up)",
-                "other": "more than the option strings"}[k]
+                "headings": "the group headings (destinations of a merged wrapper)", "other": "more than the option strings"}[k]
         out.append(f"--help text differs across PYTHONHASHSEED ({obs['ntexts']} texts over {case.get('nseeds', 8)} seeds): {what}")
     return out
 
@@ -610,7 +655,7 @@ def py_spec(case, obs):
 def signature(case, obs, reason):
     if reason.startswith("--help text differs"):
         return "hashseed:" + {"order": "equal-length-spelling-order", "option-sets": "conflict-resolution-differs",
-                              "other": "other"}[_seed_difference(obs)]
+                              "headings": "group-heading-differs", "other": "other"}[_seed_difference(obs)]
     if reason.startswith(("print_help()", "a parse after")):
         misfit = None
         for v in obs["variants"]:
@@ -713,13 +758,15 @@ def _cmd_meta(f):
 
 def _forest(case, n, docs):
     ws = []
-    for path, tree in drv.walk(case):
+    for path, tree, more in drv.help_wrappers(case):
         up = drv.user_prefix(case, path)
         fs = []
         for f in tree["fields"]:
+            # (for a merged wrapper the definition default is handed over as the merged action prints it, e.g. `[3, 3, 3]`)
             fs.append(f"(mkhf (mkfw {n.ss(path)} {n.s(f['name'])} {n.s(up)} {n.ss(f['aliases'])} false) {cbool(f['init'])} "
-                      f"{_cmd_meta(f)} {n.s(f['help'])} {n.os(drv.value_text(f['default']))} {cbool(f['default'][0] == 'bool')})")
-        ws.append(f"(mkhw {n.s(tree['cls'])} {n.ss(path)} {n.s(docs.get(tree['cls'], drv.DOC.format(tree['cls'])))} {clist(fs)})")
+                      f"{_cmd_meta(f)} {n.s(f['help'])} {n.os(drv.merged_text(f['default'], 1 + len(more)))} "
+                      f"{cbool(f['default'][0] == 'bool')})")
+        ws.append(f"(mkhw {n.s(tree['cls'])} {n.ss(path)} {n.ss(more)} {n.s(docs.get(tree['cls'], drv.DOC.format(tree['cls'])))} {clist(fs)})")
     return clist(ws)
 
 
@@ -751,7 +798,7 @@ def _docs_of(case, obs):
     the explicit docstring of the generator when set-up never happened"""
     out = {}
     for v in obs["variants"]:
-        for (_p, t), doc in zip(drv.walk(case), v.get("docs", [])):
+        for (_p, t, _m), doc in zip(drv.help_wrappers(case), v.get("docs", [])):
             if doc is not None:
                 out.setdefault(t["cls"], doc)
     return out
@@ -784,7 +831,7 @@ def to_coq(case, obs):
         acc = n.t(clist([n.t(cpair(n.s(d), n.ss(k))) for d, k in v["accepted"]]))
         hid = n.t(clist([cpair(n.s(d), cbool(rej)) for d, rej, _, _ in v["hidden"]]))
         api = n.t(_res(v["api"], lambda g: _groups(g, n)))
-        vs.append(f"(mkvar {cbool(v['full'])} {n.t(clist([n.ss(r) for r in v['oracle']]))} {_err(v['end'])} {stream} {_groups(v['groups'], n)} {acc} "
+        vs.append(f"(mkvar {cbool(v['full'] and case['mode'] != 'ALWAYS_MERGE')} {n.t(clist([n.ss(r) for r in v['oracle']]))} {_err(v['end'])} {stream} {_groups(v['groups'], n)} {acc} "
                   f"{n.ss(v['action_dests'])} {hid} {cbool(not v['hidden_elsewhere'])} {cbool(bool(v['format_help_same']))} "
                   f"{cbool(v['after_typed'] == v['fresh_typed'])} {api} "
                   f"{n.t(_res(v['after'], view))} {n.t(_res(v['fresh'], view))})")
